@@ -84,13 +84,20 @@ pub fn seed_recycled() -> (String, Vec<Op>) {
     )
 }
 
+pub fn seed_group_of_four() -> (String, Vec<Op>) {
+    (
+        "a 4-member group holding one unread datum + an ungrouped vertex".to_string(),
+        vec![Op::Add(0), Op::Add(1), Op::Add(2), Op::Add(3), Op::Add(4), Op::Bind(0, 1, 0), Op::Bind(1, 2, 0), Op::Bind(3, 2, 0), Op::Put(3, 0)],
+    )
+}
+
 pub fn seed_reloaded() -> (String, Vec<Op>) {
     ("a group with unread data, reloaded from disk".to_string(), vec![Op::Add(1), Op::Add(2), Op::Bind(1, 2, 0), Op::Put(2, 0), Op::Add(3), Op::Put(3, 0), Op::ReloadSwap])
 }
 
 fn seeded5(prop: &'static str, name: &str, d: usize) -> HxCfg {
     let mut c = HxCfg::new(prop, name, 2, 5, &[0, 1, 2, 3, 4], &[0], &[0]);
-    c.seeds = vec![seed_two_groups_and_bystander(), seed_recycled(), seed_reloaded()];
+    c.seeds = vec![seed_two_groups_and_bystander(), seed_recycled(), seed_reloaded(), seed_group_of_four()];
     c.max_depth = d;
     c
 }
@@ -378,13 +385,68 @@ pub fn run_hx_plus_graphs(prop: &'static str, tier: &str) -> Outcome {
     o
 }
 
+/// C02/C03/C06: HX explorations + a directed exhaustive family, one model_checking evidence.
+pub fn run_hx_plus_family(prop: &'static str, tier: &str) -> Outcome {
+    let t0 = Instant::now();
+    let mut o = run_hx_prop(prop, tier);
+    let (acc, what) = match prop {
+        "C02" => (crate::gen::families::run_c02_family(tier), "every way to grow one group to exactly 16 members (each of the 14 joins through either bind arm: 2^14 patterns) next to a bystander group and an ungrouped vertex, data on one or two members (position derived from the pattern), put before or after the join, overwriting put, both read orders; oracle: the reference model in lock-step after every call"),
+        "C03" => (crate::gen::families::run_c03_sweep(tier), "value sweep: 8 short histories (bind, rebind, two labels, put/read twice, overwrite, re-put, collection elsewhere, grouped data) x every data length 0..=17 x 40 labels (Alpha 0/1/10/255/256/MAX, single ASCII, Greek and 4-byte characters, texts of 2..8 characters incl. near-duplicates) x Sodg<1>, Sodg<2>, Sodg<16>"),
+        _ => (crate::gen::families::run_c06_family(tier), "slot table at full scale: create 14 groups (all usable slots), kill a subset (2^14 occupancy patterns; quick: every third, one of the four (kill order, put-before/after-bind) combinations each; thorough: all), then 45 create-put-read cycles over a rotating set of 3 id pairs (one of them recycled ids) with the remaining 0..13 groups alive; plus runs of 150/300 cycles for every number 0..=13 of groups kept alive; oracle: the reference model in lock-step after every call"),
+    };
+    if acc.failures.iter().any(|f| f.signature.starts_with("machinery:")) {
+        o.machinery.push(format!("the directed family generated a call outside the limits: {}", acc.failures.iter().find(|f| f.signature.starts_with("machinery:")).unwrap().summary));
+    }
+    if acc.nontrivial == 0 && acc.fail_total == 0 {
+        o.machinery.push("the directed family completed no run".to_string());
+    }
+    if let serde_json::Value::Object(m) = &mut o.coverage {
+        m.insert(
+            "directed_family".into(),
+            json!({"what": what, "real_calls_compared_with_the_model": acc.evaluations, "runs_completed": acc.nontrivial, "counters": acc.counters, "samples": acc.samples, "failing_cases": acc.fail_total}),
+        );
+        let t = m["traces_validated_against_impl"].as_u64().unwrap_or(0) + acc.evaluations;
+        m.insert("traces_validated_against_impl".into(), json!(t));
+    }
+    o.failure_total += acc.fail_total;
+    o.failures.extend(acc.failures.into_iter().filter(|f| !f.signature.starts_with("machinery:")));
+    o.wall_s = t0.elapsed().as_secs_f64();
+    o
+}
+
+/// C09: the evidence of a fault enumeration: cut files loaded, distinct images.
+pub fn run_c09(tier: &str) -> Outcome {
+    let mut o = run_hx_prop("C09", tier);
+    let hx = o.coverage.clone();
+    let c = &hx["non_vacuity_counters"];
+    let images = c["distinct_images_cut"].as_u64().unwrap_or(0);
+    let cuts = c["cut_files_loaded"].as_u64().unwrap_or(0);
+    o.level = "fault_enumeration".to_string();
+    o.coverage = json!({
+        "evaluations": cuts,
+        "distinct_nontrivial": images,
+        "rule": "CUTS: for every distinct image (deduplicated by content) saved from a state of the HX explorations listed under hx.runs - graphs with heap and inline data, multi-edge vertices, several groups, recycled slots, capacities 3..256 - every prefix length 0 <= k < size is produced (the image is written once and shortened byte by byte) and passed to the real Sodg::load(path): each must return Err (never Ok, never a panic); the complete image must load. evaluations = truncated files loaded; distinct_nontrivial = distinct images cut at every position",
+        "samples": hx["samples"],
+        "exhaustive": true,
+        "fault_model": "truncation of the image at any byte position (what a crash during the single non-atomic fs::write leaves)",
+        "hx": hx,
+    });
+    o
+}
+
 pub fn run(prop: &str, tier: &str) -> Option<Outcome> {
     match prop {
+        "C02" => return Some(run_hx_plus_family("C02", tier)),
+        "C03" => return Some(run_hx_plus_family("C03", tier)),
+        "C06" => return Some(run_hx_plus_family("C06", tier)),
+        "C07" => return Some(crate::c07::run_c07(tier)),
+        "C09" => return Some(run_c09(tier)),
         "C11" => return Some(crate::gen::treegen::run_c11(tier)),
         "C12" => return Some(crate::gen::treegen::run_c12(tier)),
         "C13" => return Some(run_hx_plus_graphs("C13", tier)),
         "C18" => return Some(run_hx_plus_graphs("C18", tier)),
         "C20" => return Some(run_hx_plus_graphs("C20", tier)),
+        "C14" => return Some(crate::gen::proggen::run_c14(tier)),
         "C15" => return Some(crate::gen::hexgen::run_c15(tier)),
         "C16" => return Some(crate::gen::hexgen::run_c16(tier)),
         "C17" => return Some(crate::gen::labelgen::run_c17(tier)),
